@@ -21,6 +21,8 @@ static uint64_t vm[VK_WORDS], vm0[VK_WORDS], vx[VK_WORDS];
 static uint64_t *vk_at (uint64_t a)
 { CHECK ((a & 7) == 0 && a >= VK_BASE && a < VK_BASE + 8UL * VK_WORDS, "kernel memory access aligned and inside the modelled memory"); return &vm[(a - VK_BASE) >> 3]; }
 static uint64_t vk_junk (int k) { return in64 (); }
+#define VK_J4 { vk_junk (16), vk_junk (17), vk_junk (18), vk_junk (19) }
+#define VK_VR_INIT VK_J4, VK_J4, VK_J4, VK_J4, VK_J4, VK_J4, VK_J4, VK_J4, VK_J4, VK_J4, VK_J4, VK_J4, VK_J4, VK_J4, VK_J4, VK_J4     /* vector registers start with arbitrary contents */
 #define VK_RET_CHECK() CHECK (rsp == VK_STACK_TOP && rbx == s_rbx && rbp == s_rbp && r12 == s_r12 && r13 == s_r13 && r14 == s_r14 && r15 == s_r15, "callee-saved registers and the stack pointer are restored at ret")
 #define VK_FELL_OFF() CHECK (0, "control falls off the end of the kernel")
 #ifdef VK_UF
@@ -46,7 +48,10 @@ extern uint64_t vkreal (uint64_t, uint64_t, uint64_t, uint64_t, uint64_t);
 #define mpn_kara_sqr_n vk_unused_kara_sqr_n
 #include "mpn/generic/mul_n.c"
 #endif
-#define P0 8
+#ifndef ALN
+#define ALN 0
+#endif
+#define P0 (8 + ALN)     /* ALN 0..3: destination at 0, 8, 16, 24 mod 32 bytes (alignment prologues of the vector kernels) */
 VF_MAIN_BEGIN
   long i; uint64_t kret = 0, tret = 0; int o_r, o_r2 = -1, o_u, o_v, rlen, r2len = 0;
   VF_FIDELITY ();
